@@ -234,6 +234,12 @@ func evalHistory(h *History, label string) (observed bool) {
 			}
 		}
 		if strings.HasPrefix(r, "PANIC") {
+			if strings.HasPrefix(op, "inst") && strings.Contains(r, "nil_map") && closedCacheBefore(h, k) {
+				rep.Violate(hx.Violation{Kind: "impl-violation", Signature: "N1:compiler:compile-after-cache-close-panics-nil-map",
+					What: fmt.Sprintf("op %d %q: CompileModule on a live runtime whose compilation cache was closed panics in the host (%s) instead of returning an error", k, op, r),
+					Input: h, Expected: steps[k].Ans, Actual: r})
+				return false
+			}
 			rep.Violate(hx.Violation{Kind: "impl-violation", Signature: "C09:" + h.Engine + ":go-panic:" + strings.Fields(op)[0],
 				What: fmt.Sprintf("op %d %q panicked in the host: %s", k, op, r), Input: h, Expected: steps[k].Ans, Actual: r})
 			return false
@@ -285,6 +291,15 @@ func evalHistory(h *History, label string) (observed bool) {
 			k, op, outcome, r, t, res.Crash, res.Stderr),
 		Input: h, Expected: t, Actual: outcome + ":" + r})
 	return true
+}
+
+func closedCacheBefore(h *History, k int) bool {
+	for _, op := range h.Ops[:k] {
+		if op == "closecache" {
+			return true
+		}
+	}
+	return false
 }
 
 func classOf(a string) string {
@@ -373,6 +388,8 @@ func corpus() []*History {
 		mk(true, "inst 0 - priv", "inst 1 0 exp", "pass 0 own 1 tab:2", "closert", "gc", "call 1 tab:2 5", "closecache", "gc", "call 0 host 2")
 		// cache closed under a live runtime: instances keep working
 		mk(true, "inst 0 - priv", "inst 1 0 priv", "pass 0 own 1 tab:2", "closecache", "gc", "call 1 tab:2 5", "call 1 imp 1", "call 0 host 2")
+		// cache closed, then the live runtime compiles another module (compiler: nil-map panic, finding N1)
+		mk(true, "inst 0 - priv", "closecache", "call 0 host 1", "inst 1 - priv", "call 0 host 2")
 		// compiled modules closed first
 		mk(false, "inst 0 - priv", "inst 1 0 priv", "closecm 0", "closecm 1", "gc", "call 1 imp 4", "call 0 host 1", "close 1", "close 0", "gc")
 		// unsafe: F7 through a global, two-level (reference to an imported function), uninvolved owner in a shared table
@@ -633,9 +650,9 @@ func main() {
 	parallel(outstandingCases(), evalOutstanding)
 
 	// 3. generated histories
-	n := 120
+	n := 400
 	if hx.Thorough() {
-		n = 1500
+		n = 6000
 	}
 	g := &gen{r: hx.Rand()}
 	var hs []*History
